@@ -364,3 +364,67 @@ package sem
 //@ func readTwice(k) r
 //@   props E00
 //@   ensures[bad-same-after-relock]{E00} r
+
+// ---- fourth batch: guaranteed writes, mode-restricted postconditions, contract names inside an inlined callee
+//@ func clearAll(b)
+//@   props E00
+//@   requires b != nil
+//@   concurrent E00
+//@   shared b.c, b.m
+//@   ensures[tm-bad-zero-under-interference]{E00} forall e Int :: 0 <= e && e < 4 ==> b.c[e] == 0
+//@   ensures[ok-every-cell-stored]{E00} forall e Int :: 0 <= e && e < 4 ==> written(b.c[e])
+//@   ensures[ok-m-stored]{E00} written(b.m)
+//@   onwrite[ok-only-zeroes]{E00} b.c: new == 0
+//@   loop 1:
+//@     invariant[stored-prefix] 0 <= i && i <= 4 && (forall e Int :: 0 <= e && e < i ==> written(b.c[e]))
+
+//@ func storeTwo(b)
+//@   props E00
+//@   requires b != nil
+//@   concurrent E00 and sequential
+//@   shared b.c
+//@   ensures[ok-zero-alone]{E00,seq} b.c[0] == 0 && b.c[1] == 0
+//@   ensures[ok-stored-alone]{E00,seq} written(b.c[0]) && written(b.c[1])
+//@   ensures[tm-bad-zero-under-interference]{E00} b.c[0] == 0 && b.c[1] == 0
+//@   ensures[ok-both-stored]{E00,conc} written(b.c[0]) && written(b.c[1])
+//@   ensures[bad-third-stored]{E00,conc} written(b.c[2])
+//@   modifies b.c
+
+//@ func clearOneByCas(b)
+//@   props E00
+//@   requires b != nil
+//@   concurrent E00
+//@   shared b.c
+//@   ensures[bad-cell-stored]{E00} written(b.c[1])
+//@   onwrite[ok-only-zeroes]{E00} b.c: new == 0 && idx == 1
+
+//@ func clearOneRetry(b)
+//@   props E00
+//@   requires b != nil
+//@   concurrent E00
+//@   shared b.c
+//@   ensures[ok-cell-stored]{E00} written(b.c[1])
+//@   ensures[bad-other-cell-stored]{E00} written(b.c[2])
+
+//@ func publishAfterClear(b)
+//@   props E00
+//@   requires b != nil
+//@   concurrent E00
+//@   shared b.c, b.m, b.gen
+//@   onwrite[ok-cleared-before-published]{E00} b.gen: (forall e Int :: 0 <= e && e < 4 ==> written(b.c[e])) && written(b.m)
+
+//@ func publishBeforeClear(b)
+//@   props E00
+//@   requires b != nil
+//@   concurrent E00
+//@   shared b.c, b.m, b.gen
+//@   onwrite[bad-cleared-before-published]{E00} b.gen: forall e Int :: 0 <= e && e < 4 ==> written(b.c[e])
+
+//@ spec func negAt(a, k) = 0 <= k && k < len(a) && a[k] < 0
+//@ func firstNegative(a) r
+//@   props E00
+//@   ensures[ok-none-before] forall k Int :: 0 <= k && k < r ==> !negAt(a, k)
+//@   ensures[ok-found] r >= 0 ==> negAt(a, r)
+//@   ensures[bad-always-found] negAt(a, r)
+//@   loop 1:
+//@     invariant forall k Int :: 0 <= k && k < #i ==> !negAt(a, k)
